@@ -191,6 +191,10 @@ Definition ev_tag (e : event) : option N :=
 Fixpoint opt_tags (l : list event) : list N :=
   match l with [] => [] | e :: r => match ev_tag e with Some t => t :: opt_tags r | None => opt_tags r end end.
 
+Definition rtyp (r : N * N * N) : N := fst (fst r).
+Definition rtag (r : N * N * N) : N := snd (fst r).
+Definition rerrno (r : N * N * N) : N := snd r.
+
 Definition rlerror_tags (l : list event) : list N :=
   flat_map (fun e => match e with EvRlerror t => [t] | _ => [] end) l.
 Definition delivered (l : list event) : list (N * N) :=
@@ -207,7 +211,8 @@ Inductive fcase :=
         (events : list obs_event) (reads : list N)
         (has_base : bool) (base : list obs_event)      (* the same stream received unsegmented *)
 | CBig (msize size avail : N) (kind consumed maxread : N)
-| CSession (msize : N) (stream : list N) (otbl : list (N * N * N * bool)) (replies : list (N * N)) (hang returned verok : bool)
+| CSession (msize : N) (stream : list N) (otbl : list (N * N * N * bool)) (replies : list (N * N * N))   (* type, tag, errno of an Rlerror *)
+           (hang returned verok : bool)
 | CVec (mode : N)             (* 0 scripted io.Reader, 1 unix socket *)
        (bufs : list N) (stream : list N) (sc : script) (n err : N) (contents : list (list N))
 | CFlag (ok : bool).           (* a comparison made by the harness itself (300 KB payload through a socket) *)
@@ -256,8 +261,12 @@ Definition agrees (c : fcase) : bool :=
       let evs := serve lookup_reg (oracle_ok tbl) true (sess_msize msize) stream in
       if sess_skip (delivered evs) then true else
       negb hang && returned && verok &&
-      same_multiset (opt_tags evs) (map snd replies) &&
-      forallb (fun t => existsb (fun r => (snd r =? t) && (fst r =? p9_msgRlerror)) replies) (rlerror_tags evs)
+      (* one reply per served frame, under the tag the model predicts (unknown type: the frame's own
+         tag, body-level rejection: NOTAG); rejections are Rlerror EIO *)
+      same_multiset (opt_tags evs) (map rtag replies) &&
+      forallb (fun t => Nat.leb (count_tag t (rlerror_tags evs))
+                                (count_tag t (map rtag (filter (fun r => (rtyp r =? p9_msgRlerror) && (rerrno r =? 5)) replies))))
+              (rlerror_tags evs)
   | CVec mode bufs stream sc n err contents =>
       let r := if mode =? 0 then readfrom_generic true sc bufs stream
                else readfrom_vec true [] (sumN bufs) bufs [] stream in
@@ -290,10 +299,10 @@ Definition property_holds (c : fcase) : bool :=
        let tail := walk_tail 200 (sess_msize msize) stream in
        (Nat.eqb (List.length replies) (List.length frames) ||
         (tail && Nat.eqb (List.length replies) (S (List.length frames)))) &&
-       forallb (fun r => let t := snd r in
-                         (Nat.leb (count_tag t (map snd replies)) (count_tag t (map snd frames))) ||
-                         ((t =? noTag) && (fst r =? p9_msgRlerror)) ||
-                         (tail && (fst r =? p9_msgRlerror))) replies)
+       forallb (fun r => let t := rtag r in
+                         (Nat.leb (count_tag t (map rtag replies)) (count_tag t (map snd frames))) ||
+                         ((t =? noTag) && (rtyp r =? p9_msgRlerror)) ||
+                         (tail && (rtyp r =? p9_msgRlerror))) replies)
   | CVec mode bufs stream sc n err contents =>
       if negb (script_positive sc) then true else
       if sumN bufs <=? len stream then
